@@ -81,11 +81,19 @@ class Lin:
     __rmul__ = __mul__
 
     def __mod__(self, m):
-        if m == 2:
-            return Par({v for v, c in self.co.items() if c % 2}, self.k % 2)
         if not self.co:
             return self.k % m
+        if isinstance(m, int) and m > 0:
+            return Par(dict(self.co), self.k, m)
         raise Unsupported(f"symbolic value modulo {m}")
+
+    def __xor__(self, o):
+        o = Lin.lift(o)
+        if not self.co and not o.co:
+            return self.k ^ o.k
+        raise Unsupported("xor of symbolic integers")
+
+    __rxor__ = __xor__
 
     def __eq__(self, o):
         if not isinstance(o, (Lin, int)):
@@ -112,47 +120,56 @@ class Lin:
 
 
 class Par:
-    """parity (mod 2) of a linear form: set of variables + constant bit."""
+    """residue class (mod m) of a linear form: coefficients mod m + constant."""
 
-    def __init__(self, vs, k):
-        self.vs = frozenset(vs)
-        self.k = k % 2
+    def __init__(self, vs, k, m=2):
+        self.m = m
+        if isinstance(vs, dict):
+            self.co = {v: c % m for v, c in vs.items() if c % m}
+        else:
+            self.co = {v: 1 for v in vs}
+        self.vs = frozenset(self.co)
+        self.k = k % m
 
     def __xor__(self, o):
+        if isinstance(o, Lin) and not o.co:
+            o = o.k
         if isinstance(o, int):
-            o = Par((), o)
-        if not isinstance(o, Par):
-            raise Unsupported("xor of parity with non-parity")
-        return Par(self.vs ^ o.vs, self.k ^ o.k)
+            o = Par((), o, self.m)
+        if not isinstance(o, Par) or self.m != 2 or o.m != 2:
+            raise Unsupported("xor of non-parity values")
+        co = dict(self.co)
+        for v in o.co:
+            co[v] = co.get(v, 0) + 1
+        return Par(co, self.k ^ o.k, 2)
 
     __rxor__ = __xor__
 
-    def __add__(self, o):  # (p + q) used before % 2
-        raise Unsupported("integer sum of parities (use ^ or take % 2 of the sum of charges)")
+    def __add__(self, o):
+        raise Unsupported("integer sum of residues (use ^ or take % 2 of the sum of charges)")
 
     def __mod__(self, m):
-        if m == 2:
+        if m == self.m:
             return self
-        raise Unsupported("parity modulo != 2")
+        raise Unsupported("residue taken modulo a different modulus")
 
     def __eq__(self, o):
+        if isinstance(o, Lin) and not o.co:
+            o = o.k
         if isinstance(o, int):
-            o = Par((), o)
-        return isinstance(o, Par) and self.vs == o.vs and self.k == o.k
+            o = Par((), o, self.m)
+        return isinstance(o, Par) and self.m == o.m and self.co == o.co and self.k == o.k
 
     def __hash__(self):
-        return hash((self.vs, self.k))
+        return hash((self.m, tuple(sorted(self.co.items())), self.k))
 
     def _truth(self):
-        if not self.vs:
+        if not self.co:
             return bool(self.k)
-        raise Unsupported("truth value of a symbolic parity")
-
-    def is_bit(self):
-        return True
+        raise Unsupported("truth value of a symbolic residue")
 
     def __repr__(self):
-        return "par(" + "^".join(sorted(self.vs) + [str(self.k)]) + ")"
+        return f"mod{self.m}(" + "+".join([f"{c}{v}" for v, c in sorted(self.co.items())] + [str(self.k)]) + ")"
 
 
 # --------------------------------------------------------------------------- #
@@ -252,7 +269,9 @@ def _is_valid_value(model, kind, carrier, v):
 
 def _bit(v):
     if isinstance(v, Par):
-        return True
+        return v.m == 2
+    if isinstance(v, Lin):
+        return not v.co and v.k in (0, 1)
     return isinstance(v, int) and v in (0, 1)
 
 
@@ -306,8 +325,11 @@ def check_class(ctx, model, rid):
                 _eq(model.sign(ab, True), model.combine(sa, model.sign(b, True))), f"a={a},b={b}", "sign")
             pa, pb = model.parity(a), model.parity(b)
             rec("parity is 0/1", _bit(pa), f"parity({a})={pa}", "parity")
-            rec("parity(combine(a,b))==parity(a)^parity(b)", _eq(model.parity(ab), _xor(pa, pb)),
-                f"a={a},b={b}", "parity")
+            if _bit(pa) and _bit(pb):
+                rec("parity(combine(a,b))==parity(a)^parity(b)", _eq(model.parity(ab), _xor(pa, pb)),
+                    f"a={a},b={b}", "parity")
+            else:
+                rec("parity(combine(a,b))==parity(a)^parity(b)", False, f"parity({a})={pa} is not a bit", "parity")
             rec("parity(sign(c))==parity(c)", _eq(model.parity(sa), pa), f"a={a}", "parity")
             rec("n-ary combine == folded binary", _eq(model.combine(a, b, c), model.combine(ab, c)),
                 f"a={a},b={b},c={c}", "combine")
@@ -375,117 +397,95 @@ def check_registry(prog, ctx):
 # R17.4 sector enumeration agrees with the validity predicate
 
 
+class AnyKeys(dict):
+    """charge table of the last index in the symbolic case: every charge is available."""
+
+    def keys(self):
+        return self
+
+    def __contains__(self, k):
+        return True
+
+
+def _array_obj(prog, model, duals, chargemaps, charge):
+    arr_cls = prog.cls("AbelianArray")
+    ix_cls = prog.cls("BlockIndex")
+    indices = tuple(Obj(ix_cls, {"_dual": d, "_chargemap": cm, "_subinfo": None, "_hashkey": None})
+                    for d, cm in zip(duals, chargemaps))
+    return Obj(arr_cls, {"_indices": indices, "_charge": charge, "_symmetry": model.self_obj, "_blocks": {}})
+
+
 def check_enumeration(prog, ctx, models):
+    """Abstractly evaluate gen_valid_sectors and is_valid_sector (their real ASTs) on
+    index tables over the symmetry's carrier and compare: none extra, none missing, none repeated."""
     rid = "R17.4"
     gv = prog.func("symmray.abelian_core:AbelianArray.gen_valid_sectors")
     iv = prog.func("symmray.abelian_core:AbelianArray.is_valid_sector")
-    # locate by shape: the assignment whose value is self.symmetry.sign(self.symmetry.combine(...), <last dual>)
-    req = None
-    partial = None
-    for n in walk_own(gv.node):
-        if isinstance(n, ast.Assign) and len(n.targets) == 1 and isinstance(n.targets[0], ast.Name):
-            nm = n.targets[0].id
-            if nm == "required_charge":
-                req = n
-            elif nm == "signed_partial_sector":
-                partial = n
-    ctx.need(req is not None and partial is not None,
-             "gen_valid_sectors: the required_charge / signed_partial_sector assignments were not found "
-             "(enumeration rewritten: re-derive R17.4)")
-    # the yield must be `partial_sector + (required_charge,)` guarded by membership in last_charges
-    ylds = [n for n in walk_own(gv.node) if isinstance(n, ast.Yield)]
-    ctx.need(len(ylds) == 2, "gen_valid_sectors: expected exactly two yields (0-d and general)")
-    guard_ok = False
-    for n in walk_own(gv.node):
-        if isinstance(n, ast.If) and isinstance(n.test, ast.Compare) and src(n.test) == "required_charge in last_charges":
-            guard_ok = any(
-                isinstance(s, ast.Expr) and isinstance(s.value, ast.Yield)
-                and src(s.value.value) == "partial_sector + (required_charge,)" for s in n.body
-            )
-    ctx.check(guard_ok, rid, gv, gv.node, "yield guard",
-              "general case yields partial_sector + (required_charge,) only when required_charge is a charge of the last index")
-    # iteration is a product over the first indices' charges
-    prod_ok = any(
-        isinstance(n, ast.For) and src(n.iter) == "itertools.product(*first_charges)" for n in walk_own(gv.node)
-    )
-    ctx.check(prod_ok, rid, gv, gv.node, "product", "partial sectors enumerated by itertools.product over all first indices' charges (each tuple once)")
 
-    # validity expression: combine(*(sign(c, ix.dual) ...)) == self.charge
-    ret = [n for n in walk_own(iv.node) if isinstance(n, ast.Return)]
-    ctx.need(len(ret) == 1 and src(ret[0].value) == "block_charge == self.charge",
-             "is_valid_sector no longer returns `block_charge == self.charge`")
+    def enumerate_(ev, arr):
+        ev.steps = 0
+        ev.yields = []
+        ev.call(gv, [], self_obj=arr)
+        return list(ev.yields)
 
-    def is_valid(model, sector, duals, charge):
-        signed = [model.sign(c, d) for c, d in zip(sector, duals)]
-        return _eq(model.combine(*signed), charge)
-
-    # check the two expressions still have the shape we evaluate
-    ctx.need(
-        src(partial.value).replace(" ", "").replace("\n", "")
-        == "self.symmetry.combine(*(self.symmetry.sign(c,notdual)forc,dualinzip(partial_sector,first_duals)))",
-        "signed_partial_sector expression changed shape: " + src(partial.value),
-    )
-    ctx.need(
-        src(req.value).replace(" ", "").replace("\n", "")
-        == "self.symmetry.sign(self.symmetry.combine(self.charge,signed_partial_sector),last_dual)",
-        "required_charge expression changed shape: " + src(req.value),
-    )
-    sigsrc = [n for n in walk_own(iv.node) if isinstance(n, ast.Assign)]
-    ctx.need(
-        any(src(a.value).replace(" ", "").replace("\n", "")
-            == "(self.symmetry.sign(c,ix.dual)forc,ixinzip(sector,self._indices))" for a in sigsrc),
-        "is_valid_sector signed_sector expression changed shape",
-    )
-
-    def required(model, partial_sector, first_duals, last_dual, charge):
-        sp = model.combine(*[model.sign(c, not d) for c, d in zip(partial_sector, first_duals)])
-        return model.sign(model.combine(charge, sp), last_dual)
+    def valid(ev, arr, sector):
+        ev.steps = 0
+        return bool(ev.call(iv, [tuple(sector)], self_obj=arr))
 
     for model, kind, carrier in models:
         name = model.ci.name
+        ev = Evaluator(prog, max_steps=400000)
         ncase = 0
         bad = None
-        for nd in (1, 2, 3, 4):
-            for duals in itertools.product((False, True), repeat=nd):
-                if kind == "finite":
-                    if nd == 4 and len(carrier) > 2:
-                        firsts = itertools.product(carrier, repeat=nd - 1)
-                    else:
-                        firsts = itertools.product(carrier, repeat=nd - 1)
-                    charges = carrier
-                else:
-                    firsts = [tuple(sym_elems(kind, [f"c{i}" for i in range(nd - 1)]))]
-                    charges = sym_elems(kind, ["q"])
-                for ps in firsts:
-                    for q in charges:
-                        r = required(model, ps, duals[:-1], duals[-1], q)
-                        ncase += 1
-                        # (i) soundness: the completed sector is valid
-                        if not is_valid(model, tuple(ps) + (r,), duals, q):
-                            bad = bad or f"ndim={nd} duals={duals} partial={ps} charge={q}: required={r} is not valid"
-                        # (ii) uniqueness/completeness: any valid last charge equals r
-                        if kind == "finite":
-                            for x in carrier:
-                                if is_valid(model, tuple(ps) + (x,), duals, q) and not _eq(x, r):
-                                    bad = bad or f"ndim={nd} duals={duals} partial={ps} charge={q}: valid last charge {x} != required {r}"
-                        else:
-                            # linear: sign(x,last_dual) + S == q has the unique solution x = sign(q - S)
-                            x = sym_elems(kind, ["x"])[0]
-                            lhs = model.combine(*[model.sign(c, d) for c, d in zip(tuple(ps) + (x,), duals)])
-                            # substitute x := r and compare with q is (i); uniqueness because the
-                            # coefficient of x in lhs is +-1
-                            coefs = _coef_of(lhs, "x")
-                            if not all(c in (1, -1) for c in coefs):
-                                bad = bad or f"coefficient of last charge in validity expression is {coefs}, not +-1"
-        ctx.check(bad is None, rid, gv, req, f"{name}: required_charge",
-                  f"{name}: solving for the last charge agrees with is_valid_sector ({ncase} cases, ndim<=4, all dual patterns)"
+        if kind == "finite":
+            tables = [list(carrier)]
+            if len(carrier) > 1:
+                tables.append(list(carrier[:1]))
+                tables.append(list(carrier[1:]))
+            for nd in (0, 1, 2, 3):
+                table_choices = itertools.product(tables, repeat=nd) if nd <= 2 else [tuple([tables[0]] * nd)]
+                for tabs in table_choices:
+                    for duals in itertools.product((False, True), repeat=nd):
+                        for q in carrier:
+                            arr = _array_obj(prog, model, duals, [{c: 1 for c in t} for t in tabs], q)
+                            got = enumerate_(ev, arr)
+                            want = [sec for sec in itertools.product(*tabs) if valid(ev, arr, sec)]
+                            ncase += 1
+                            if len(got) != len(set(got)):
+                                bad = bad or f"ndim={nd} duals={duals} charge={q}: repeated sectors {got}"
+                            if set(got) != set(want):
+                                bad = bad or (f"ndim={nd} duals={duals} charge={q} tables={tabs}: generated "
+                                              f"{sorted(set(got) - set(want))} extra, {sorted(set(want) - set(got))} missing")
+        else:
+            for nd in (0, 1, 2, 3, 4):
+                for duals in itertools.product((False, True), repeat=nd):
+                    firsts = sym_elems(kind, [f"c{i}" for i in range(max(nd - 1, 0))])
+                    q = sym_elems(kind, ["q"])[0]
+                    cms = [{c: 1} for c in firsts] + ([AnyKeys()] if nd else [])
+                    arr = _array_obj(prog, model, duals, cms, q)
+                    got = enumerate_(ev, arr)
+                    ncase += 1
+                    if nd == 0:
+                        # symbolic total charge is not the identity in general: nothing is generated
+                        # unless charge == identity; check with the identity charge as well
+                        arr0 = _array_obj(prog, model, (), [], model.combine())
+                        got0 = enumerate_(ev, arr0)
+                        if got0 != [()] or not valid(ev, arr0, ()):
+                            bad = bad or f"0-d array with identity charge: generated {got0}"
+                        if got:
+                            bad = bad or f"0-d array with non-identity charge q: generated {got}"
+                        continue
+                    if len(got) != 1:
+                        bad = bad or f"ndim={nd} duals={duals}: {len(got)} sectors generated for one partial sector"
+                        continue
+                    if not valid(ev, arr, got[0]):
+                        bad = bad or f"ndim={nd} duals={duals}: generated sector {got[0]} does not satisfy is_valid_sector"
+                    if tuple(got[0][:-1]) != tuple(firsts):
+                        bad = bad or f"ndim={nd}: generated sector does not extend the partial sector"
+        ctx.check(bad is None, rid, gv, gv.node, f"{name}: enumeration",
+                  f"{name}: gen_valid_sectors == filter(is_valid_sector) on {ncase} index structures "
+                  f"({'all tables over the carrier, ndim<=3' if kind == 'finite' else 'symbolic charges, ndim<=4; uniqueness by the involution law'})"
                   + ("" if bad is None else f"; witness: {bad}"))
-
-
-def _coef_of(v, var):
-    if isinstance(v, tuple):
-        return [x.co.get(var + str(i), 0) for i, x in enumerate(v)]
-    return [v.co.get(var, 0)]
 
 
 # --------------------------------------------------------------------------- #
@@ -518,4 +518,4 @@ def run(prog, ctx):
         check_enumeration(prog, ctx, models)
     except Unsupported as e:
         raise AnalysisError(f"enumeration check: {e}")
-    ctx.minimum("R17.4", 7, "2 structural + 5 classes")
+    ctx.minimum("R17.4", 5, "5 classes")
